@@ -12,7 +12,9 @@ def sh(cmd, cwd=None, timeout=3600):
 
 def src(idm):
     ID, m = idm
-    for d in ('/verif/seeded/%s-%s' % (ID, m), '/tmp/mut/out/%s/%s' % (ID, m)):
+    # round 2 of the campaign: `r2m1` lives in /tmp/mut/out2/<ID>/m1 and is developed in /tmp/mut/wt2-<ID>
+    fresh = '/tmp/mut/out2/%s/%s' % (ID, m[2:]) if m.startswith('r2') else '/tmp/mut/out/%s/%s' % (ID, m)
+    for d in ('/verif/seeded/%s-%s' % (ID, m), fresh):
         if os.path.exists(d + '/patch.diff'):
             return d
     sys.exit('no patch for %s %s' % idm)
@@ -35,7 +37,7 @@ def demo_tests(d):
     return out
 
 def confirm(ID, m):
-    d = src((ID, m)); wt = '/tmp/mut/wt-%s' % ID
+    d = src((ID, m)); wt = ('/tmp/mut/wt2-%s' if m.startswith('r2') else '/tmp/mut/wt-%s') % ID
     res = {}
     sh('git checkout -- . && git clean -fdq -e Cargo.lock -e target', wt)
     tests = demo_tests(d)
